@@ -80,7 +80,7 @@ def range_of_next(fn, flow, sym, t):
     return None
 
 
-def _path_tests_output_size(fn, plain, sym, blocks, res_size_atoms):
+def _path_tests_output_size(fn, plain, sym, blocks, res_size_atoms, out_l=None):
     """some two-way decision on the path compares a value that depends on the output's limb count"""
     from .rad import _deep_atoms
     for b in blocks:
@@ -96,6 +96,8 @@ def _path_tests_output_size(fn, plain, sym, blocks, res_size_atoms):
                 ats = _deep_atoms(pl)
                 if any(a in res_size_atoms for a in ats) or any(a[0] == "f" and a[1] in ("len", "is_empty") for a in ats):
                     return True
+                if out_l is not None and any(a[0] == "p" and a[1] == out_l for a in ats):
+                    return True  # a field of the output (its limb count read directly), or the output itself
     return False
 
 
@@ -130,7 +132,7 @@ def early_return(p, fn):
         for st in blk["s"]:
             if st[0] == "A" and st[2]["k"] == "Agg" and st[2].get("ak") == "Closure" and any(o[0] in ("c", "m") and is_out(o) for o in st[2].get("o", [])):
                 touch.add(bi)
-    if not touch or not res_size_atoms:
+    if not touch:
         return None
     g = CFG(fn)
     paths = sc.returning_paths(fn, g, cap=400)
@@ -139,7 +141,7 @@ def early_return(p, fn):
     for path in paths:
         if any(b in touch for b in path):
             continue
-        if _path_tests_output_size(fn, plain, sym, set(path), res_size_atoms):
+        if _path_tests_output_size(fn, plain, sym, set(path), res_size_atoms, out_l):
             continue
         return "a returning path hands the output to nothing (no limb accessor, kernel or closure) and no decision on it depends on the output's size (early return): the column keeps its previous contents"
     return None
@@ -453,7 +455,7 @@ def analyse(p, fn, memo, depth=0):
     for pi, path in enumerate(paths):
         if any(it.get("full") for it in path):
             continue
-        if not path and res_size_atoms and not _path_tests_output_size(fn, plain, sym, path_blocks[pi], res_size_atoms):
+        if not path and not _path_tests_output_size(fn, plain, sym, path_blocks[pi], res_size_atoms, out_l):
             # an early return: nothing is written and no decision on the way looked at the size of the output
             order = {"covered": 0, "undecided": 1, "gap": 2, "skip": 3}
             if order["gap"] > order[worst]:
